@@ -43,7 +43,8 @@ MUTATIONS = ['undeclared', 'redeclare-global', 'redeclare-proc', 'array-as-scala
              'arity-drop', 'arity-add', 'proc-formal', 'func-as-statement', 'proc-in-expression', 'val-from-var', 'val-forward', 'empty-string',
              'long-string', 'array-len-0', 'array-len-negative', 'array-len-huge', 'big-literal', 'empty-file', 'no-main', 'label-like-names',
              'deep-parens', 'deep-if', 'long-seq', 'bad-syscall', 'syscall-no-args', 'syscall-many-args', 'return-in-proc', 'no-return',
-             'high-bytes', 'local-array', 'duplicate-formal', 'main-with-formals', 'recursive-val']
+             'high-bytes', 'local-array', 'duplicate-formal', 'main-with-formals', 'recursive-val', 'val-cycle', 'val-cycle-local',
+             'array-len-cycle', 'val-chain-long']
 
 
 def gen_source(r, want_mutation=None):
@@ -108,7 +109,7 @@ def apply(r, P, m, text):
             fn = [q['name'] for q in procs if q['kind'] == 'func']
             return ('pcall', r.choice(fn), s[2]) if fn else None
         if m == 'assign-to-val' and s[0] == 'ass' and s[1][0] == 'var' and pick():
-            vals = [g[1] for g in gl if g[0] == 'val'] + [q['name'] for q in procs]
+            vals = [g[1] for g in gl if g[0] == 'val'] + [q['name'] for q in procs] + ['lv9', 'lv9']
             return ('ass', ('var', r.choice(vals)), s[2]) if vals else None
         if m == 'bad-syscall' and s[0] == 'syscall' and pick():
             return ('syscall', r.choice([3, 4, 255, 2**31]), s[2])
@@ -132,6 +133,9 @@ def apply(r, P, m, text):
     P = dict(globals=list(gl), procs=[dict(q) for q in procs])
     for q in P['procs']:
         q['body'] = _rewrite_stmt(q['body'], fe, fs)
+        if m == 'assign-to-val':
+            # every procedure gets a local val that the rewritten assignments may target
+            q['locals'] = list(q['locals']) + [('val', 'lv9', ('num', 5))]
     if m == 'redeclare-global' and P['globals']:
         g = r.choice(P['globals'])
         P['globals'].insert(r.randint(0, len(P['globals'])), g if r.random() < 0.5 else ('var', g[1]))
@@ -149,6 +153,30 @@ def apply(r, P, m, text):
         P['procs'][0]['body'] = ('seq', [('syscall', 1, [('var', 'vv'), ('num', 0)]), P['procs'][0]['body']])
     elif m == 'val-forward':
         P['globals'] = [('val', 'fw1', ('bin', '+', ('var', 'fw2'), ('num', 1))), ('val', 'fw2', ('num', 3))] + P['globals']
+    elif m in ('val-cycle', 'val-cycle-local'):
+        # definitions that refer to each other in a cycle of length 2..4, in either textual order
+        n = r.randint(2, 4)
+        names = ['cy%d' % i for i in range(n)]
+        decls = []
+        for i in range(n):
+            nxt = ('var', names[(i + 1) % n])
+            decls.append(('val', names[i], nxt if r.random() < 0.5 else ('bin', r.choice('+-'), nxt, ('num', r.randint(0, 3)))))
+        r.shuffle(decls)
+        if m == 'val-cycle':
+            P['globals'] = decls + P['globals'] if r.random() < 0.5 else P['globals'] + decls
+        else:
+            q = r.choice(P['procs'])
+            q['locals'] = list(q['locals']) + decls
+        tgt = P['procs'][0]
+        tgt['body'] = ('seq', [('syscall', 1, [('var', names[0]), ('num', 0)]), tgt['body']]) if m == 'val-cycle' else tgt['body']
+    elif m == 'array-len-cycle':
+        P['globals'] = [('val', 'al1', ('var', 'al2')), ('val', 'al2', ('bin', '+', ('var', 'al1'), ('num', 1))), ('array', 'ALC', ('var', 'al1'))] + P['globals']
+    elif m == 'val-chain-long':
+        k = r.choice([50, 300, 2000])
+        ch = [('val', 'ch0', ('num', 1))] + [('val', 'ch%d' % i, ('bin', '+', ('var', 'ch%d' % (i - 1)), ('num', 1))) for i in range(1, k)]
+        if r.random() < 0.5:
+            ch.reverse()
+        P['globals'] = ch + P['globals']
     elif m == 'recursive-val':
         P['globals'] = [('val', 'rv', ('bin', '+', ('var', 'rv'), ('num', 1)))] + P['globals']
     elif m in ('array-len-0', 'array-len-negative', 'array-len-huge'):
